@@ -3,6 +3,8 @@ import CC.Model.Sym
 import CC.Props.C04
 import CC.Props.C12
 import CC.Props.C17
+import CC.Props.C06
+import CC.Lemmas.Contig
 /-! # C16 — every secret, nonce and identifier is fresh (partial)
 
 The CSPRNG is idealised as a counter of fresh tokens threaded through every operation. What the
@@ -102,5 +104,56 @@ theorem user_ids_fresh (msk : Msk) (rights : List Right) (n : Rng) (usk : Usk)
 /-- the metadata encryption key differs from the secret handed to the caller -/
 theorem metadata_key_ne_secret (seed : Nat) : (⟨seed, labelHdrSecret⟩ : DKey) ≠ ⟨seed, labelHdrKey⟩ :=
   CC.Props.C12.header_secret_ne_metadata_key seed
+
+/-! ## over every history -/
+
+/-- the generator only moves forward along any sequence of operations from a reachable world -/
+theorem steps_rng_mono (w : World) (hw : Reachable w) (ops : List Op) : w.rng ≤ (ops.foldl World.step w).rng := by
+  induction ops generalizing w with
+  | nil => exact Nat.le_refl _
+  | cons op rest ih =>
+    have hr' : Reachable (w.step op) := by
+      obtain ⟨n0, k0, ops0, rfl⟩ := hw
+      exact ⟨n0, k0, ops0 ++ [op], by simp [List.foldl_append]⟩
+    exact Nat.le_trans (step_rng_mono w op (reachable_inv w hw)) (ih (w.step op) hr')
+
+/-- whatever a reachable world publishes was drawn before: every published token is below the
+generator's counter -/
+theorem published_below (w : World) (hw : Reachable w) (r : Right) (pk : Sk) (h : (r, pk) ∈ w.msk.mpk.keys) :
+    pk.tok < w.rng := by
+  obtain ⟨chain, hm, hh⟩ := CC.Props.C06.mpk_only_activated w.msk r pk h
+  have hb := (reachable_inv w hw).below r chain hm (true, pk)
+  apply hb
+  cases chain with
+  | nil => simp at hh
+  | cons a as => simp only [List.head?_cons, Option.some.injEq] at hh; subst hh; exact List.mem_cons_self
+
+/-- **Every rekey publishes a value never published before, over every history.** Take any
+reachable world `w0` and any value `pk0` it publishes (for any right); let any operations follow,
+then a rekey of a policy whose rights the master key holds. The newest secret of every rekeyed
+right — what the next public key publishes for it — is a draw of this very call, hence differs
+from `pk0`: no public value of any earlier moment ever comes back through a rekey. -/
+theorem rekey_never_republishes (w0 : World) (hw0 : Reachable w0) (r0 : Right) (pk0 : Sk)
+    (hpub : (r0, pk0) ∈ w0.msk.mpk.keys) (ops : List Op) (p : AP) (rights : List Right)
+    (hr : (ops.foldl World.step w0).msk.structure_.uskRights p = .ok rights)
+    (hall : ∀ r ∈ rights, ((ops.foldl World.step w0).msk.secrets.getLatest r).isSome)
+    (r : Right) (hmem : r ∈ rights) :
+    ∃ act sk, ((ops.foldl World.step w0).step (.rekey p)).msk.secrets.getLatest r = some (act, sk) ∧
+      pk0.tok < sk.tok := by
+  have h0 := published_below w0 hw0 r0 pk0 hpub
+  have hmono := steps_rng_mono w0 hw0 ops
+  generalize ops.foldl World.step w0 = w1 at hr hall hmono
+  obtain ⟨act, sk, hl, hn⟩ := rekey_publishes_fresh w1.msk.secrets rights w1.rng r hmem hall
+  refine ⟨act, sk, ?_, Nat.lt_of_lt_of_le (Nat.lt_of_lt_of_le h0 hmono) hn⟩
+  simp only [World.step, hr, rekey]
+  have hany : (rights.any fun r => (w1.msk.secrets.getLatest r).isNone) = false := by
+    rw [List.any_eq_false]
+    intro x hx
+    have := hall x hx
+    cases hgl : w1.msk.secrets.getLatest x with
+    | none => simp [hgl] at this
+    | some v => simp
+  simp only [hany]
+  exact hl
 
 end CC.Props.C16
